@@ -505,6 +505,61 @@ def run_console_batches(ctx):
     return n
 
 
+def run_sarif_batches(ctx):
+    """--structured -o sarif: the results listed for each data file in a run over several files are the results of that file validated
+    alone - documents that are identical, that differ only in a value, that fail at the same position under the same rule and message,
+    in both orders, as a directory and one by one, with one and with two rules files"""
+    r1 = 'rule port {\n  port == 443 <<wrong port>>\n}\nrule named {\n  name exists\n}\n'
+    r2 = 'rule port {\n  port == 443 <<wrong port>>\n}\n'      # a second rules file with a rule of the same name and message
+    docs = {'dev.json': '{"port": 80, "name": "a"}', 'prod.json': '{"port": 80, "name": "a"}', 'stage.json': '{"port": 81, "name": "b"}', 'ok.json': '{"port": 443, "name": "c"}',
+            'noname.json': '{"port": 80}'}
+    d = os.path.join(ctx.wd, 'sarif')
+    files = {'r1.guard': r1, 'r2.guard': r2}
+    for nm, body in docs.items():
+        files[nm] = body
+        files['all/' + nm] = body
+    e2e.write_files(d, files)
+    def results(stdout):
+        j = json.loads(stdout.decode())
+        out = []
+        for run in j.get('runs', []):
+            for r in run.get('results', []):
+                loc = (r.get('locations') or [{}])[0].get('physicalLocation', {})
+                out.append((os.path.basename(loc.get('artifactLocation', {}).get('uri', '?')), r.get('ruleId'), r.get('message', {}).get('text'), json.dumps(loc.get('region'), sort_keys=True)))
+        return sorted(out)
+    flags = ['--structured', '-o', 'sarif', '-S', 'none']
+    jobs, meta = [], []
+    rule_sets = {'one rules file': ['-r', 'r1.guard'], 'two rules files': ['-r', 'r1.guard', '-r', 'r2.guard']}
+    for rl, rargs in rule_sets.items():
+        for nm in docs:
+            jobs.append({'args': ['validate'] + rargs + ['-d', nm] + flags, 'cwd': d}); meta.append((rl, 'single', (nm,)))
+        for order in (('dev.json', 'prod.json'), ('prod.json', 'dev.json'), ('dev.json', 'stage.json', 'prod.json'), ('ok.json', 'dev.json', 'prod.json'), ('noname.json', 'dev.json'),
+                      ('dev.json', 'noname.json', 'prod.json', 'ok.json', 'stage.json')):
+            jobs.append({'args': ['validate'] + rargs + sum((['-d', x] for x in order), []) + flags, 'cwd': d}); meta.append((rl, 'batch', order))
+        jobs.append({'args': ['validate'] + rargs + ['-d', 'all'] + flags, 'cwd': d}); meta.append((rl, 'batch', tuple(sorted(docs))))
+    res = {}
+    n = 0
+    for (rl, kind, order), (code, so, se) in zip(meta, e2e.run_many(jobs)):
+        try:
+            rr = results(so)
+        except Exception as e:
+            ctx.failing('validate -o sarif (%s, %s) printed no readable SARIF (exit %s)' % (rl, list(order), code), {'class': 'sarif-batch', 'stdout': so[:300].decode('utf-8', 'replace'), 'stderr': se[-300:].decode('utf-8', 'replace')}, found=True)
+            continue
+        if kind == 'single':
+            res[(rl, order[0])] = rr
+            continue
+        n += 1
+        want = sorted(x for nm in order for x in res.get((rl, nm), []))
+        if rr != want:
+            missing = [x for x in want if x not in rr]
+            extra = [x for x in rr if x not in want]
+            ctx.failing('validate -o sarif over %s (%s): the results are not those of the files validated alone (missing %d, unexpected %d)' % (list(order), rl, len(missing), len(extra)),
+                        {'class': 'sarif-batch', 'rules_files': rl, 'documents': list(order), 'missing': missing[:6], 'unexpected': extra[:6]}, found=True)
+    ctx.coverage['sarif_batches'] = n
+    ctx.coverage['evaluations'] += len(jobs)
+    return n
+
+
 def run(ctx):
     ctx.build(cli=True)
     pr = ctx.proofs('C12')
@@ -515,7 +570,7 @@ def run(ctx):
         ctx.coverage['inventory_' + kind] = len(cur)
         inv_problems += ['%s: %s' % (kind, p) for p in problems]
     n1 = run_validate(ctx, 120 if thorough else 24, thorough)
-    n2 = run_test_cases(ctx, 100 if thorough else 20) + run_rules_file_names(ctx) + run_params_batch(ctx) + run_console_batches(ctx)
+    n2 = run_test_cases(ctx, 100 if thorough else 20) + run_rules_file_names(ctx) + run_params_batch(ctx) + run_console_batches(ctx) + run_sarif_batches(ctx)
     ctx.coverage['distinct_nontrivial'] = n1 + n2
     ctx.coverage['rule'] = ('scenario = 1..3 rules files (hand-written files reusing the names v, r0, r1, r2 and the capture variable k with different meanings, '
                             'and generated programs whose names collide) x 1..4 documents; every pair alone, then the batch in up to %d orders of -r/-d, as '
